@@ -131,7 +131,7 @@ theorem ibig_shl_exact (W : Nat) (hW : 1 ≤ W) (a : SRepr) (n : Nat) (ha : SCan
   unfold ibigShl specShl
   rw [withSign_value, e]
   obtain ⟨an, am⟩ := a
-  cases an <;> simp <;> push_cast <;> ring
+  cases an <;> simp
 
 /-- UBig `>>` is division by `2^n`, in both the owning and the borrowing implementation -/
 theorem shr_exact (W : Nat) (hW : 1 ≤ W) (m : TRepr) (n : Nat) (byRef : Bool) (hm : m.Canon W) :
